@@ -78,8 +78,7 @@ func driveTxGrid(args []string) error {
 		if err := emit("reset", beh, 0, nil, fl); err != nil {
 			return err
 		}
-		if bad {
-			ad = &txAdapter{}
+		if bad { // (the node, if any, is retired by the next reset)
 			continue
 		}
 		nb := len(u.blk)
@@ -182,8 +181,7 @@ func driveTxGrid(args []string) error {
 				return err
 			}
 			steps++
-			if bad {
-				ad = &txAdapter{} // the real system is in an unknown state after a panic
+			if bad { // the real system is in an unknown state after a panic: the next reset retires it
 				break
 			}
 		}
